@@ -23,6 +23,9 @@ ERR = ["Blah", "Red/Blue", "Property/Red", "(Duration/3 xyz, (Red))", "Age/abc",
        "Event/Sensory-event/Wrong", "Red, Red", "(Blue, Green), (Green, Blue)", "Definition/Xyz", "Inset",
        "Label/a$b", "Item-count/abc"]
 STRUCT = [",, ", "(", ")", " Red (Blue) "]
+DEFS = "(Definition/Acc/#, (Acceleration/#, Red)), (Definition/Plain, (Square))"
+DEFUSE = ["Def/Acc/3 hz", "Def/Acc/3", "Def/Acc/3 m-per-s^2", "(Def-expand/Acc/3 hz, (Acceleration/3 hz, Red))", "Def/Plain/3", "Def/Acc",
+          "(Def-expand/Plain, (Circle))", "Def/Plain"]
 _G = {}
 
 
@@ -30,7 +33,7 @@ def compose(rng, n_err=None):
     k = rng.randint(1, 4)
     parts = []
     for _ in range(k):
-        pool = rng.choice([VALID, VALID, WARN, ERR])
+        pool = rng.choice([VALID, VALID, WARN, ERR, DEFUSE])
         parts.append(rng.choice(pool))
     if rng.random() < 0.3 and len(parts) > 1:
         i = rng.randrange(len(parts) - 1)
@@ -45,7 +48,9 @@ def compose(rng, n_err=None):
 
 def _init(_):
     from hed import load_schema_version
+    from hed.models.definition_dict import DefinitionDict
     _G["schema"] = load_schema_version("8.3.0")
+    _G["dd"] = DefinitionDict(DEFS, _G["schema"])
 
 
 def _occurrences(text, frag):
@@ -96,8 +101,7 @@ def _record(issues_w, issues_e, rid, seed):
     rng = random.Random(seed)
     shuffled = list(issues_w)
     rng.shuffle(shuffled)
-    for n, i in enumerate(shuffled):
-        i["_oi"] = n + 1
+    shuffled = [dict(i, _oi=n + 1) for n, i in enumerate(shuffled)]      # shallow copies: the list may hold one object twice
     srt = sort_issues(shuffled)
     fields = ["ec_filename", "ec_sidecarColumnName", "ec_sidecarKeyName", "ec_row", "ec_column"]
 
@@ -111,8 +115,6 @@ def _record(issues_w, issues_e, rid, seed):
     sortkeys = [[rk[f][i.get(f, -1) if f == "ec_row" else (str(i.get(f, "")) if i.get(f, "") is not None else "")]
                  for f in fields] for i in srt]
     sortoi = [i["_oi"] for i in srt]
-    for i in shuffled:
-        del i["_oi"]
     codes = [i.get("code") for i in issues_w]
     exported = [dict(i) for i in issues_w]
     json_ok = True
@@ -140,22 +142,22 @@ def run_case(case):
         if kind == "string":
             out = []
             for w in (True, False):
-                h = HedString(case["text"], schema)
+                h = HedString(case["text"], schema, _G["dd"])
                 eh = ErrorHandler(check_for_warnings=w)
                 eh.push_error_context(ErrorContext.HED_STRING, h)
                 out.append(h.validate(allow_placeholders=case["ph"], error_handler=eh))
             return _record(out[0], out[1], rid, seed)
         if kind == "string-default":
-            h = HedString(case["text"], schema)
+            h = HedString(case["text"], schema, _G["dd"])
             iw = h.validate(allow_placeholders=case["ph"])
-            ie = [i for i in HedString(case["text"], schema).validate(allow_placeholders=case["ph"],
+            ie = [i for i in HedString(case["text"], schema, _G["dd"]).validate(allow_placeholders=case["ph"],
                                                                      error_handler=ErrorHandler(check_for_warnings=False))]
             return _record(iw, ie, rid, seed)
         if kind == "sidecar":
             out = []
             for w in (True, False):
                 sc = Sidecar(io.StringIO(json.dumps(case["sidecar"])))
-                out.append(sc.validate(schema, error_handler=ErrorHandler(check_for_warnings=w)))
+                out.append(sc.validate(schema, extra_def_dicts=_G["dd"], error_handler=ErrorHandler(check_for_warnings=w)))
             return _record(out[0], out[1], rid, seed)
         if kind == "table":
             out = []
@@ -163,7 +165,7 @@ def run_case(case):
                 sc = Sidecar(io.StringIO(json.dumps(case["sidecar"])))
                 df = pd.DataFrame(case["table"])
                 t = TabularInput(df, sidecar=sc, name="events_%s.tsv" % rid)
-                out.append(t.validate(schema, error_handler=ErrorHandler(check_for_warnings=w)))
+                out.append(t.validate(schema, extra_def_dicts=_G["dd"], error_handler=ErrorHandler(check_for_warnings=w)))
             return _record(out[0], out[1], rid, seed)
     except Exception as ex:  # noqa
         return {"id": rid, "raised": "%s: %s" % (type(ex).__name__, str(ex)[:200])}
@@ -184,7 +186,31 @@ def make_cases(ctx, n):
             if rng.random() < 0.5:
                 sc["other"] = {"HED": {"x": compose(rng), "y": compose(rng)}}
             c["sidecar"] = sc
-            if kind == "table":
+            if kind == "table" and rng.random() < 0.5:
+                # clean, oddly spaced cells with a tag repeated across columns: the row-level issue names a tag of a
+                # LATER column, so its offsets depend on the span bookkeeping of the assembled row
+                pads = [" ,  ", ",   ", " , ", ",\t".replace("\t", "  ")]
+                def clean(rng, must=None):
+                    parts = rng.sample(VALID[:6], rng.randint(1, 3))
+                    if must and must not in parts:
+                        parts.insert(rng.randrange(len(parts) + 1), must)
+                    return rng.choice(["", " ", "  "]) + rng.choice(pads).join(parts) + rng.choice(["", "  "])
+                rep = rng.choice(["Blue", "Green", "Agent-action", "Event"])
+                cat = {"k0": clean(rng, rep), "k1": clean(rng)}
+                c["sidecar"] = {"trial_type": {"HED": cat}, "zcol": {"HED": {"z0": clean(rng, rep), "z1": clean(rng)}}}
+                nrow = rng.randint(1, 3)
+                c["table"] = {"onset": [str(1.0 + r) for r in range(nrow)],
+                              "trial_type": [rng.choice(["k0", "k0", "k1"]) for _ in range(nrow)],
+                              "HED": [clean(rng, rng.choice([rep, None])) for _ in range(nrow)],
+                              "zcol": [rng.choice(["z0", "z0", "z1", "n/a"]) for _ in range(nrow)]}
+                # without a time line (no onset column, or onset n/a) the row string is assembled from the cell objects
+                # and offsets are mapped back through the cells' spans
+                mode = rng.choice(["onset", "no-onset-column", "na-onsets"])
+                if mode == "no-onset-column":
+                    del c["table"]["onset"]
+                elif mode == "na-onsets":
+                    c["table"]["onset"] = ["n/a"] * nrow
+            elif kind == "table":
                 nrow = rng.randint(1, 4)
                 keys = list(cat)
                 c["table"] = {"onset": [str(1.0 + r) for r in range(nrow)],
